@@ -679,6 +679,16 @@ func (e *aEnv) step(st aStep, idx int) (res aRes) {
 				}(s2)
 			}
 		}
+	case "reflock":
+		// the steps of Par[0] run while the referrers mutex of the server is held - the situation of a request that arrives while
+		// another client's artifact push holds it: an artifact push started with "async" inside gets as far as the mutex
+		e.s.referrerMu.Lock()
+		out := []aRes{}
+		for _, s2 := range st.Par[0] {
+			out = append(out, e.step(s2, -1))
+		}
+		e.s.referrerMu.Unlock()
+		res.Par = [][]aRes{out}
 	case "join":
 		// wait (at most Secs) for the requests started by "async"
 		deadline := time.After(time.Duration(st.Secs * float64(time.Second)))
